@@ -1004,6 +1004,15 @@ func runKIND(c *Ctx, r *Result, rule string, fns []*ssa.Function, reach *Reach) 
 func runKINDIn(c *Ctx, g *MCG, r *Result, rule string, fns []*ssa.Function, reach *Reach) int {
 	e := newKindEngine(c, g)
 	n := 0
+	type pending struct {
+		o   Obligation
+		f   *ssa.Function
+		key excSiteKey
+		bad kset
+		got kset
+		m   string
+	}
+	var pend []pending
 	for _, f := range fns {
 		ord := map[string]int{}
 		for _, ins := range instrsIn(f) {
@@ -1022,31 +1031,47 @@ func runKINDIn(c *Ctx, g *MCG, r *Result, rule string, fns []*ssa.Function, reac
 			n++
 			k := shortFn(f) + ":" + callee.Name()
 			ord[k]++
-			key := fmt.Sprintf("%s#%d", k, ord[k])
 			recv := call.Call.Args[0]
 			got := e.at(recv, call.Block())
 			allowed := need.ok
 			if need.nfOwned {
 				allowed |= kIface | kPtr
 			}
-			o := Obligation{Rule: rule, Key: key, Fn: shortFn(f), Pos: c.W.Pos(call.Pos()), Nontrivial: true}
-			bad := got &^ allowed
-			switch {
-			case bad == 0:
-				o.Verdict, o.Reason = Discharged, fmt.Sprintf("receiver may be %s, %s accepts that", got, callee.Name())
-				if got == 0 {
-					o.Reason = "unreachable in the module call graph (no value reaches the receiver)"
-				}
-			case kindExceptions[key] != "":
-				o.Verdict, o.Reason = Exception, "reviewed: "+kindExceptions[key]
-			default:
-				o.Verdict, o.Reason = Finding, fmt.Sprintf("reflect.Value.%s panics on a receiver of kind %s, which no dominating test excludes (receiver may be %s)", callee.Name(), bad, got)
-				if reach != nil {
-					o.Path = reach.Path(f)
-				}
-			}
-			r.Add(o)
+			o := Obligation{Rule: rule, Key: fmt.Sprintf("%s#%d", k, ord[k]), Fn: shortFn(f), Pos: c.W.Pos(call.Pos()), Nontrivial: true}
+			pend = append(pend, pending{o: o, f: f, key: excSiteKey{shortFn(f), callee.Name(), ord[k]}, bad: got &^ allowed, got: got, m: callee.Name()})
 		}
+	}
+	var keys []string
+	for k := range kindExceptions {
+		keys = append(keys, k)
+	}
+	var siteKeys, needKeys []excSiteKey
+	for _, p := range pend {
+		siteKeys = append(siteKeys, p.key)
+		if p.bad != 0 {
+			needKeys = append(needKeys, p.key)
+		}
+	}
+	resolver := newExcResolver(c, keys, siteKeys, needKeys, fns, true)
+	for _, p := range pend {
+		o := p.o
+		switch {
+		case p.bad == 0:
+			o.Verdict, o.Reason = Discharged, fmt.Sprintf("receiver may be %s, %s accepts that", p.got, p.m)
+			if p.got == 0 {
+				o.Reason = "unreachable in the module call graph (no value reaches the receiver)"
+			}
+		default:
+			if k := resolver.resolve(p.key); k != "" {
+				o.Verdict, o.Reason = Exception, "reviewed ("+k+"): "+kindExceptions[k]
+				break
+			}
+			o.Verdict, o.Reason = Finding, fmt.Sprintf("reflect.Value.%s panics on a receiver of kind %s, which no dominating test excludes (receiver may be %s)", p.m, p.bad, p.got)
+			if reach != nil {
+				o.Path = reach.Path(p.f)
+			}
+		}
+		r.Add(o)
 	}
 	return n
 }
